@@ -9,6 +9,8 @@ import Driver.Deps
 import Driver.San
 import GooseVerif.Model.Tr
 import GooseVerif.Model.Scope
+import GooseVerif.Model.Core
+import GooseVerif.Model.Heap
 
 def main (args : List String) : IO UInt32 := do
   match args with
@@ -26,6 +28,13 @@ def main (args : List String) : IO UInt32 := do
   | ["tr"] => Driver.lineLoop (fun (_ : Unit) ws => ((), match ws with | u :: toks => GooseVerif.Model.Tr.run u toks | [] => "bad-input")) (); return 0
   | ["scope"] => Driver.lineLoop (fun (_ : Unit) ws => ((), GooseVerif.Model.Scope.run ws)) (); return 0
   | ["scopego"] => Driver.lineLoop (fun (_ : Unit) ws => ((), GooseVerif.Model.Scope.runGoToks ws)) (); return 0
+  | ["heap"] => Driver.lineLoop (fun (_ : Unit) ws => ((), GooseVerif.Model.Heap.run ws)) (); return 0
+  | ["heapgo"] => Driver.lineLoop (fun (_ : Unit) ws => ((), GooseVerif.Model.Heap.runGoToks ws)) (); return 0
+  | ["heapt"] => Driver.lineLoop (fun (_ : Unit) ws => ((), GooseVerif.Model.Heap.runTToks ws)) (); return 0
+  | ["core"] => Driver.lineLoop (fun (_ : Unit) ws => ((), GooseVerif.Model.Core.run ws)) (); return 0
+  | ["corego"] => Driver.lineLoop (fun (_ : Unit) ws => ((), GooseVerif.Model.Core.runGoToks ws)) (); return 0
+  | ["corewf"] => Driver.lineLoop (fun (_ : Unit) ws => ((), GooseVerif.Model.Core.runWf ws)) (); return 0
+  | ["coreeval"] => Driver.lineLoop (fun (_ : Unit) ws => ((), GooseVerif.Model.Core.runTgtToks ws)) (); return 0
   | ["san"] => Driver.lineLoop (fun (_ : Unit) ws => ((), Driver.San.step ws)) (); return 0
   | ["deps"] => Driver.lineLoop (fun (_ : Unit) ws => ((), Driver.Deps.step ws)) (); return 0
   | ["wt"] => Driver.lineLoop Driver.Prim.wtStep (); return 0
